@@ -117,7 +117,27 @@ func (ws *wordState) unit(s sym) wunit {
 		case "j":
 			d = S + 1501
 		}
-		if t.Kind == "h264b" {
+		if t.Kind == "h265b" {
+			// decode times advance like those of any other track; the presentation time handed to WriteH265 is ahead
+			// of them by what the slice kind implies, so that a decode time can be derived for every word
+			dt := startTicks
+			if ws.begun[s.T] {
+				dt = ws.last[s.T] + d
+			}
+			ws.begun[s.T] = true
+			ws.last[s.T] = dt
+			switch s.K {
+			case "R", "r", "P":
+				u.POC = 0
+			case "M":
+				u.POC = 2
+			case "b":
+				u.POC = 3
+			default:
+				u.POC = 1
+			}
+			u.DTS = dt + h265bLag[u.POC]
+		} else if t.Kind == "h264b" {
 			// frames are written in decode order; u.DTS is the presentation time handed to WriteH264
 			T := s.T
 			if !ws.begun[T] {
@@ -487,7 +507,7 @@ func e1Explore(c *vh.Ctx, sc e1Scen) {
 		if r.pruned {
 			c.Count("words_ended_by_underivable_dts", 1)
 		}
-		if sc.Cfg.Tracks[sc.Cfg.leading()].Kind == "h264b" {
+		if k := sc.Cfg.Tracks[sc.Cfg.leading()].Kind; k == "h264b" || k == "h265b" {
 			for _, us := range r.model.emitted {
 				for _, u := range us {
 					if u.ptsOff != 0 {
